@@ -62,7 +62,7 @@ def generate(master, index, tier):
             items.append(W.gen_nmea(rng) if rng.random() < 0.5 else W.gen_ubx(rng))
         else:
             items.append(["bad", W.sync_dense(rng, rng.choice((1, 3, 10, 40))).hex(), "junk"])
-    long_run = index % 50 == 7
+    long_run = index % 100 == 7
     if long_run:
         # deep error history: > 1000 consecutive rejected items, sometimes closed by a valid frame
         items = W.gen_long_error_run(rng, rng.choice((300, 1100, 1600, 2500)))
